@@ -73,6 +73,20 @@ def touch(v):
                 getattr(o, attr)
             except Exception:  # noqa: BLE001
                 pass
+    # computations that fill lazily built, cached helpers (GCP polynomial fits, extents, approximations ...)
+    for attr in ("extent", "boundingbox", "geographic_extent", "resolution", "approx", "linear", "center_pixel", "alignment",
+                 "footprint", "p2w", "w2p", "wkt", "valid_region", "chunks", "base", "boundary"):
+        try:
+            r = getattr(v, attr)
+            if callable(r) and attr in ("footprint",):
+                r("epsg:4326")
+        except Exception:  # noqa: BLE001
+            pass
+    try:
+        w = v.pix2wld(0.5, 1.5)
+        v.wld2pix(*w)
+    except Exception:  # noqa: BLE001
+        pass
     str(v)
     repr(v)
 
